@@ -212,6 +212,58 @@ fn run_cfg(cx: &mut CaseCx, case: &Value) {
 }
 
 
+
+/// large thresholds through the wrapper: exactly t shares group to the key; huge thresholds are passed on unchanged
+fn run_large_thresholds(cx: &mut CaseCx, case: &Value) {
+  let t = case["t"].as_u64().unwrap() as u32;
+  let m = b"large threshold".to_vec();
+  let d = json!({"t": t});
+  if t > 1000 {
+    // only the create side: key, tag and the share's deterministic fields must be the core's for THIS threshold
+    cx.nontrivial(t as u64);
+    let _ = create(cx, &m, t, "e", &d);
+    cx.count("huge_threshold_created", 1);
+    return;
+  }
+  let mut cs: Vec<Created> = vec![];
+  for i in 0..t as usize {
+    getrandom::verif::set_group(i as u32 + 1);
+    // full create-side checks on the first share only (they are O(t) each)
+    let c = if i == 0 {
+      create(cx, &m, t, "e", &d)
+    } else {
+      let v: Value = serde_json::from_str(&star_wasm::create_share(&m, t, "e")).unwrap_or(json!({}));
+      let sb = v["share"].as_str().and_then(|x| BASE64_STANDARD.decode(x).ok()).unwrap_or_default();
+      match (v["key"].as_str().and_then(|x| BASE64_STANDARD.decode(x).ok()), share_x(&sb)) {
+        (Some(key), Some(x)) => Some(Created { key, share_b64: v["share"].as_str().unwrap().to_string(), x }),
+        _ => None,
+      }
+    };
+    match c {
+      Some(c) => cs.push(c),
+      None => return,
+    }
+  }
+  let key_b64 = BASE64_STANDARD.encode(&cs[0].key);
+  cx.nontrivial(t as u64);
+  for (name, order) in [("dealt order", (0..t as usize).collect::<Vec<_>>()), ("reversed", (0..t as usize).rev().collect())] {
+    let joined = order.iter().map(|&i| cs[i].share_b64.clone()).collect::<Vec<_>>().join("\n");
+    cx.eval();
+    cx.count("states", 1);
+    cx.count("transitions", 1);
+    match guard(|| star_wasm::group_shares(&joined, "e")) {
+      Ok(Some(k)) if k == key_b64 => cx.count("grouped_ok", 1),
+      other => cx.viol("C17/group_shares-wrong-key", format!("threshold {}: exactly t distinct shares ({}) grouped to {:?} instead of the clients' key", t, name, other.map(|o| o.map(|s| s.chars().take(8).collect::<String>()))), json!({"t": t, "order": name})),
+    }
+  }
+  // t-1 of them: nothing
+  let joined = cs[1..].iter().map(|c| c.share_b64.clone()).collect::<Vec<_>>().join("\n");
+  cx.eval();
+  if guard(|| star_wasm::group_shares(&joined, "e")) != Ok(None) {
+    cx.viol("C17/group_shares-below-threshold", format!("threshold {}: t-1 shares yielded a key", t), json!({"t": t}));
+  }
+}
+
 /// measurements whose sharing key has boundary bytes (0x00 / 0xff first, middle, last): grouping must still work
 fn run_boundary_keys(cx: &mut CaseCx, case: &Value) {
   let t = case["t"].as_u64().unwrap() as u32;
@@ -293,6 +345,20 @@ pub fn spec() -> PropSpec {
       },
       run: run_cfg,
       min_counts: &[("grouped_ok", 1000), ("below_threshold_none", 100), ("wrong_epoch_no_key", 1000), ("mixture_none", 100)],
+    },
+    Check {
+      name: "large-thresholds",
+      rule: "thresholds 4..=12, 31..=34, 63..=66, 127..=130, 192, 193, 256, 257 (thorough: + 511..515): exactly t shares created through the wrapper group to the clients' key in dealt and reversed order, t-1 yield nothing; thresholds 65535, 65536, 65537, 2^17+1: create_share's key, tag and share fields equal the core's for that threshold",
+      gen: |tier| {
+        let mut ts: Vec<u64> = (4..=12).collect();
+        ts.extend([31, 32, 33, 34, 63, 64, 65, 66, 127, 128, 129, 130, 192, 193, 256, 257, 65535, 65536, 65537, 131073]);
+        if tier.thorough() {
+          ts.extend([511, 512, 513, 514, 515]);
+        }
+        ts.into_iter().map(|t| json!({"t": t})).collect()
+      },
+      run: run_large_thresholds,
+      min_counts: &[("grouped_ok", 40), ("huge_threshold_created", 4)],
     },
     Check {
       name: "boundary-keys",
